@@ -13,7 +13,7 @@ RULE = ("Hypothesis-generated (scenario, schedule) cases biased to data shapes (
         "by slot (tokens identify the producing step). non-trivial = a consumer step whose expected inputs needed "
         "memory/buffering (a value not produced by the immediately preceding step, or several events, or initial "
         "data); distinct = distinct case hashes"
-        "; in addition four long runs (until 80 / 120 / 1100) under FIFO, LIFO and a starved simulator, and the "
+        "; in addition six long runs (until 80 / 120 / 1100, strides of hundreds, 24 simulators) under FIFO, LIFO and a starved simulator, and the "
         "extreme policies (LIFO, steps first, get_data first, each simulator starved) before every schedule enumeration")
 ASSUMPTIONS = [
     "payloads are opaque JSON tokens; one connection per input slot (source entity, destination entity, attribute)",
